@@ -755,6 +755,11 @@ func (e *Engine) MessageReceived(ctx context.Context, p peer.ID, m bsmsg.BitSwap
 	e.lock.Lock()
 
 	if m.Full() {
+		// A full wantlist replaces everything the peer asked for before, so
+		// the tasks still queued for the old wants must not be served.
+		for _, w := range e.peerLedger.WantlistForPeer(p) {
+			e.peerRequestQueue.Remove(w.Cid, p)
+		}
 		e.peerLedger.ClearPeerWantlist(p)
 	}
 
